@@ -196,6 +196,24 @@ def range_guard(P, rep, rule="G4"):
             v = sc(r["c"][0])
             if inc is not None and astq.is_ref_to(v, inc):
                 continue
+            # a local copy of the incoming value (grains_local) returned before anything was stored into it is the incoming value
+            if inc is not None and v.get("k") == "DeclRefExpr" and P.d(v["r"]).get("storage") == "local":
+                decl = [x for x in F.walk() if x.get("k") == "VarDecl" and x.get("r") == v["r"] and x.get("c")]
+                if decl and astq.is_ref_to(norm.strip_casts(decl[0]["c"][0]) if norm.strip_casts(decl[0]["c"][0]).get("k") == "DeclRefExpr" else
+                                            (decl[0]["c"][0]["c"][0] if decl[0]["c"][0].get("k") in ("CXXConstructExpr",) and decl[0]["c"][0].get("c") else decl[0]["c"][0]), inc):
+                    written_before = False
+                    for w in F.walk():
+                        kw = w.get("k")
+                        tgt = None
+                        if kw in ("BinaryOperator", "CompoundAssignOperator", "CXXOperatorCallExpr") and w.get("op") in norm.ASSIGN_OPS:
+                            tgt = w["c"][0]
+                        elif kw == "CXXForRangeStmt" and any(y.get("k") == "DeclRefExpr" and y.get("r") == v["r"] for y in F.walk(w["c"][1])):
+                            tgt = w["c"][1]      # `for (auto &&m : local.matrices)` may store through m
+                        if tgt is not None and any(y.get("k") == "DeclRefExpr" and y.get("r") == v["r"] for y in F.walk(tgt)):
+                            if (w.get("l") or 0) <= (r.get("l") or 0):
+                                written_before = True
+                    if not written_before:
+                        continue
             # a local copy of the incoming value that is returned on every path (grains_local): changed only where assigned
             n_changed += 1
             b = F.block_of(r)
@@ -440,29 +458,55 @@ def formulas(P, rep, thorough=False, rule="EXPR.models"):
                 if nn.get("k") == "ConditionalOperator":
                     c0 = norm.render(P, nn["c"][0])
                     if "epsilon" in c0:
-                        return norm.Sym(P, F, inline_locals=False, hook=hk)(nn["c"][2])
+                        return symL(nn["c"][2])
                 if nn.get("k") == "CallExpr" and P.d(nn.get("callee")).get("qn") in ("std::fabs", "fabs") and "distance_from_plane" in norm.render(P, nn):
                     return sp.Symbol("dist")
                 if nn.get("k") == "MemberExpr" and nn.get("n") == "distance_from_plane":
                     return sp.Symbol("dist")
                 return None
-            v = sp.expand(norm.Sym(P, F, inline_locals=False, hook=hk)(init))
-            syms = {str(s).split("@")[0]: s for s in v.free_symbols}
-            tt = [s for nme, s in syms.items() if re.match(r"(top|center)_temperature_local", nme)]
-            tb = [s for nme, s in syms.items() if re.match(r"(bottom|side)_temperature_local", nme)]
-            lo = [s for nme, s in syms.items() if re.match(r"min_depth_local_local|min_depth_local$", nme)] or [s for nme, s in syms.items() if nme == "this.min_depth"]
-            hi = [s for nme, s in syms.items() if re.match(r"max_depth_local_local|max_depth_local$", nme)] or [s for nme, s in syms.items() if nme == "this.max_depth"]
-            xs = [s for nme, s in syms.items() if nme in ("depth", "dist")]
-            if not (len(tt) == 1 and len(tb) == 1 and len(lo) == 1 and len(hi) == 1 and len(xs) == 1):
-                rep.violation(rule, "%s: linear profile %s does not have the form T_top + (x - x_top)*(T_bot - T_top)/(x_bot - x_top)" % (F.qn, v), F.nloc(init), F.qn,
-                              norm.render(P, init)[:160], "more than one lower/upper bound or coordinate appears in the profile",
-                              key="%s|%s" % (rule, F.qn), witness="model range differing from the feature range")
-                continue
-            want = tt[0] + (xs[0] - lo[0]) * (tb[0] - tt[0]) / (hi[0] - lo[0])
-            if sp.simplify(v - sp.expand(want)) == 0:
-                rep.ok(rule, "%s = T_top + (x - x_top)*(T_bot - T_top)/(x_bot - x_top)" % F.qn, F.loc, F.qn)
+            symL = norm.Sym(P, F, inline_locals=False, hook=hk, inline_consts=True)
+            v = sp.expand(symL(init))
+            # roles, not names: the two boundary temperatures are the two mutable double locals of the profile (the sentinel
+            # override may reassign them), the coordinate is the depth parameter or |distance from plane|
+            dummies = {}
+            for at in list(v.atoms(sp.Max, sp.Min)):
+                dm = sp.Symbol("BOUND_%d" % len(dummies))
+                dummies[dm] = at
+                v = v.xreplace({at: dm})
+            v = sp.expand(v)
+            temps, xs = [], []
+            for q in v.free_symbols:
+                key = symL.keys.get(q)
+                d = P.d(key) if key is not None else {}
+                if str(q) == "dist" or (key in F.params and d.get("n") == "depth"):
+                    xs.append(q)
+                elif d.get("storage") == "local" and not d.get("const") and not (d.get("t") or "").startswith("const"):
+                    temps.append(q)
+            verdict = None
+            if len(temps) == 2 and len(xs) == 1:
+                x_ = xs[0]
+                for Ta, Tb in ((temps[0], temps[1]), (temps[1], temps[0])):
+                    try:
+                        L = sp.solve(sp.Eq(v, Ta), x_)
+                        H = sp.solve(sp.Eq(v, Tb), x_)
+                    except Exception:
+                        L = H = []
+                    if len(L) == 1 and len(H) == 1:
+                        L0, H0 = sp.simplify(L[0]), sp.simplify(H[0])
+                        if not (L0.free_symbols | H0.free_symbols) & {Ta, Tb, x_}:
+                            lt = str(L0.xreplace(dummies)).replace("Max(", "(").replace("Min(", "(").lower()
+                            ht = str(H0.xreplace(dummies)).replace("Max(", "(").replace("Min(", "(").lower()
+                            if "min" in lt and "max" not in lt and "max" in ht and "min" not in ht:
+                                if sp.simplify(v - (Ta + (x_ - L0) * (Tb - Ta) / (H0 - L0))) == 0:
+                                    verdict = (Ta, Tb, L0.xreplace(dummies), H0.xreplace(dummies))
+                                    break
+            if verdict is not None:
+                rep.ok(rule, "%s = T_top + (x - x_top)*(T_bot - T_top)/(x_bot - x_top), x_top = %s, x_bot = %s" % (F.qn, str(verdict[2])[:50], str(verdict[3])[:50]), F.loc, F.qn)
+            elif len(temps) != 2 or len(xs) != 1:
+                rep.unknown(rule, "%s: linear profile not recognised (%d boundary temperatures, %d coordinates in %s)" % (F.qn, len(temps), len(xs), str(v)[:80]))
             else:
-                rep.violation(rule, "%s returns %s" % (F.qn, v), F.nloc(init), F.qn, norm.render(P, init)[:160], "expected the linear profile between the clipped bounds",
+                rep.violation(rule, "%s returns %s" % (F.qn, str(v.xreplace(dummies))[:200]), F.nloc(init), F.qn, norm.render(P, init)[:160],
+                              "expected the linear profile that takes the top temperature at the (clipped) lower bound and the bottom temperature at the (clipped) upper bound",
                               key="%s|%s" % (rule, F.qn), witness="linear model, query at the model top and bottom")
     rep.floor(rule, n, 14, "uniform/adiabatic/linear temperature models")
 
